@@ -831,3 +831,284 @@ func (c *Ctx) ruleChildPersist() {
 		c.ob("R-CHILDPERSIST", "child-tries-walk", token.NoPos, false, "no function of "+inmemDir+" persists t.childTries")
 	}
 }
+
+// R-LRUSEQ (C35): the sequential shape of the LRU operations. R-TTL: the ccache-backed value cache can refresh recency.
+func (c *Ctx) ruleLRUSeq() {
+	dir := "lib/utils/lru-cache"
+	c.doc("R-LRUSEQ", dir+": Get on a hit moves the found element to the front before returning its value; Put on an existing key stores the new value and moves the element to the front; Put on a full cache (len(map) >= capacity) removes list.Back() from both the map (by its own key) and the list; a new entry is pushed to the FRONT and the map records the pushed element under the new key")
+	var get, put *ssa.Function
+	if sp := c.ssaPkg(dir); sp != nil {
+		if obj := sp.Pkg.Scope().Lookup("LRUCache"); obj != nil {
+			if named, ok := obj.Type().(*types.Named); ok {
+				for i := 0; i < named.NumMethods(); i++ {
+					switch named.Method(i).Name() {
+					case "Get":
+						get = c.prog.FuncValue(named.Method(i))
+					case "Put":
+						put = c.prog.FuncValue(named.Method(i))
+					}
+				}
+			}
+		}
+	}
+	if get == nil || put == nil || len(get.Blocks) == 0 || len(put.Blocks) == 0 {
+		c.unresolved(dir + " LRUCache.Get/Put")
+		return
+	}
+	listCall := func(in ssa.Instruction, name string) *ssa.Call {
+		call, ok := in.(*ssa.Call)
+		if !ok {
+			return nil
+		}
+		if cal := call.Call.StaticCallee(); cal != nil && cal.Name() == name && cal.Pkg != nil && cal.Pkg.Pkg.Path() == "container/list" {
+			return call
+		}
+		return nil
+	}
+	// the element found by the map lookup `elem, exists := c.cache[key]`
+	lookupElem := func(f *ssa.Function) (elem, exists ssa.Value) {
+		eachInstr(f, func(_ *ssa.BasicBlock, _ int, in ssa.Instruction) {
+			lk, ok := in.(*ssa.Lookup)
+			if !ok || !lk.CommaOk {
+				return
+			}
+			if _, fv, ok := fieldLoad(lk.X); !ok || fv == nil || fv.Name() != "cache" {
+				return
+			}
+			for _, r := range *lk.Referrers() {
+				if ex, ok := r.(*ssa.Extract); ok {
+					if ex.Index == 0 {
+						elem = ex
+					} else {
+						exists = ex
+					}
+				}
+			}
+		})
+		return
+	}
+	onHit := func(b *ssa.BasicBlock, exists ssa.Value) bool {
+		return guardedBy(b, func(cond ssa.Value, truth bool) bool { return cond == exists && truth })
+	}
+	// ---- Get
+	{
+		elem, exists := lookupElem(get)
+		var mtf *ssa.Call
+		eachInstr(get, func(b *ssa.BasicBlock, _ int, in ssa.Instruction) {
+			if call := listCall(in, "MoveToFront"); call != nil && len(call.Call.Args) == 2 && call.Call.Args[1] == elem && onHit(b, exists) {
+				mtf = call
+			}
+		})
+		ok := elem != nil && mtf != nil
+		if ok {
+			// every return on the hit edge is preceded by the move
+			for _, b := range get.Blocks {
+				if len(b.Instrs) == 0 {
+					continue
+				}
+				if ret, isRet := b.Instrs[len(b.Instrs)-1].(*ssa.Return); isRet && onHit(b, exists) && !instrDominates(mtf, ret) {
+					ok = false
+				}
+			}
+		}
+		c.ob("R-LRUSEQ", "Get:hit-moves-to-front", get.Pos(), ok, "a hit must call lruList.MoveToFront(found element) before returning")
+	}
+	// ---- Put
+	elem, exists := lookupElem(put)
+	var mtf, back, remove, pushFront, pushBack, del *ssa.Call
+	var mapStore *ssa.MapUpdate
+	valueStored := false
+	eachInstr(put, func(b *ssa.BasicBlock, _ int, in ssa.Instruction) {
+		if call := listCall(in, "MoveToFront"); call != nil && len(call.Call.Args) == 2 && call.Call.Args[1] == elem && onHit(b, exists) {
+			mtf = call
+		}
+		if call := listCall(in, "Back"); call != nil {
+			back = call
+		}
+		if call := listCall(in, "Remove"); call != nil {
+			remove = call
+		}
+		if call := listCall(in, "PushFront"); call != nil {
+			pushFront = call
+		}
+		if call := listCall(in, "PushBack"); call != nil {
+			pushBack = call
+		}
+		if call, ok := in.(*ssa.Call); ok && calleeName(&call.Call) == "builtin.delete" {
+			del = call
+		}
+		if mu, ok := in.(*ssa.MapUpdate); ok {
+			if _, fv, ok := fieldLoad(mu.Map); ok && fv != nil && fv.Name() == "cache" {
+				mapStore = mu
+			}
+		}
+		if st, ok := in.(*ssa.Store); ok && onHit(b, exists) {
+			if fa, ok := st.Addr.(*ssa.FieldAddr); ok && fieldVar(fa) != nil && fieldVar(fa).Name() == "value" && len(put.Params) == 3 && st.Val == ssa.Value(put.Params[2]) {
+				valueStored = true
+			}
+		}
+	})
+	c.ob("R-LRUSEQ", "Put:existing-key-updated-and-moved", put.Pos(), mtf != nil && valueStored, "an existing key gets the new value and is moved to the front")
+	// eviction
+	evOK, why := back != nil && remove != nil && del != nil, "Put never evicts list.Back()"
+	if evOK {
+		why = ""
+		if len(remove.Call.Args) != 2 || remove.Call.Args[1] != ssa.Value(back) {
+			evOK, why = false, "the element removed from the list is not list.Back()"
+		}
+		// the deleted key is read from the Back element
+		if !backwardSlice(del.Call.Args[1], nil)[back] {
+			evOK, why = false, "the key deleted from the map is not the key of list.Back()"
+		}
+		full := func(cond ssa.Value, truth bool) bool {
+			b, ok := cond.(*ssa.BinOp)
+			if !ok {
+				return false
+			}
+			isLen := func(v ssa.Value) bool {
+				call, ok := stripConv(v).(*ssa.Call)
+				if !ok || calleeName(&call.Call) != "builtin.len" {
+					return false
+				}
+				_, fv, ok := fieldLoad(call.Call.Args[0])
+				return ok && fv != nil && fv.Name() == "cache"
+			}
+			isCap := func(v ssa.Value) bool {
+				_, fv, ok := fieldLoad(stripConv(v))
+				return ok && fv != nil && fv.Name() == "capacity"
+			}
+			switch {
+			case isLen(b.X) && isCap(b.Y):
+				return (b.Op == token.GEQ && truth) || (b.Op == token.LSS && !truth) || (b.Op == token.EQL && truth)
+			case isCap(b.X) && isLen(b.Y):
+				return (b.Op == token.LEQ && truth) || (b.Op == token.GTR && !truth) || (b.Op == token.EQL && truth)
+			}
+			return false
+		}
+		if evOK && !guardedBy(remove.Block(), full) {
+			evOK, why = false, "the eviction is not on the len(cache) >= capacity edge (an off-by-one lets the cache exceed or undershoot its capacity)"
+		}
+		// and no insertion path from the full edge avoids the eviction except through a nil Back
+		if evOK && pushFront != nil && !instrReaches(back, pushFront) {
+			evOK, why = false, "the insertion does not follow the eviction"
+		}
+	}
+	c.ob("R-LRUSEQ", "Put:full-cache-evicts-back", put.Pos(), evOK, why)
+	insOK := pushFront != nil && pushBack == nil && mapStore != nil && mapStore.Value == ssa.Value(pushFront) && len(put.Params) == 3 && mapStore.Key == ssa.Value(put.Params[1])
+	c.ob("R-LRUSEQ", "Put:new-entry-at-front", put.Pos(), insOK, "a new entry is pushed to the front of the list and the map stores the pushed element under the new key")
+}
+
+func (c *Ctx) ruleCacheTTL() {
+	dir := "pkg/trie/cache/inmemory"
+	c.doc("R-TTL", dir+": every ccache Set/Replace stores the item with a positive constant time to live: ccache does not promote an expired item on Get, and a zero TTL expires at once — gets would not refresh recency")
+	sp := c.ssaPkg(dir)
+	if sp == nil {
+		return
+	}
+	n := 0
+	for _, f := range allFuncs(c, sp) {
+		eachInstr(f, func(_ *ssa.BasicBlock, _ int, in ssa.Instruction) {
+			call, ok := in.(*ssa.Call)
+			if !ok {
+				return
+			}
+			cal := call.Call.StaticCallee()
+			if cal != nil && cal.Origin() != nil {
+				cal = cal.Origin()
+			}
+			if cal == nil || cal.Pkg == nil || !strings.Contains(cal.Pkg.Pkg.Path(), "karlseguin/ccache") {
+				return
+			}
+			if cal.Name() != "Set" && cal.Name() != "Setnx" && cal.Name() != "TrackingSet" {
+				return
+			}
+			n++
+			ttl := call.Call.Args[len(call.Call.Args)-1]
+			k, isC := constInt(ttl)
+			c.ob("R-TTL", fmt.Sprintf("%s:ccache.%s#%d", relName(f.String()), cal.Name(), n), call.Pos(), isC && k > 0, fmt.Sprintf("time to live %v (must be a positive constant)", ttl))
+		})
+	}
+	if n == 0 {
+		c.unresolved("ccache Set call in " + dir)
+	}
+}
+
+// R-ROOTARG (C38): a state-root parameter is never fed a block hash.
+func (c *Ctx) ruleRootArg() {
+	dir := "dot/rpc/modules"
+	c.doc("R-ROOTARG", dir+": the argument handed to a StorageAPI parameter named `root` is nil (best state) or the result of GetStateRootFromBlock on every path; a request's block hash passed straight through selects no state (the lookup fails for every block)")
+	sp := c.ssaPkg(dir)
+	if sp == nil {
+		return
+	}
+	n := 0
+	ord := map[string]int{}
+	for _, f := range allFuncs(c, sp) {
+		eachInstr(f, func(_ *ssa.BasicBlock, _ int, in ssa.Instruction) {
+			call, ok := in.(*ssa.Call)
+			if !ok || !call.Call.IsInvoke() {
+				return
+			}
+			recvT := call.Call.Value.Type()
+			if !strings.HasSuffix(namedType(recvT), "modules.StorageAPI") {
+				return
+			}
+			sig := call.Call.Method.Type().(*types.Signature)
+			for i := 0; i < sig.Params().Len(); i++ {
+				if sig.Params().At(i).Name() != "root" {
+					continue
+				}
+				n++
+				name := relName(f.String())
+				ord[name]++
+				key := fmt.Sprintf("%s:%s.root#%d", name, call.Call.Method.Name(), ord[name])
+				bad := ""
+				seen := map[ssa.Value]bool{}
+				var walk func(v ssa.Value)
+				walk = func(v ssa.Value) {
+					if v == nil || seen[v] || bad != "" {
+						return
+					}
+					seen[v] = true
+					switch x := v.(type) {
+					case *ssa.Const:
+						if x.Value != nil {
+							bad = "constant"
+						}
+					case *ssa.Phi:
+						for _, e := range x.Edges {
+							walk(e)
+						}
+					case *ssa.Extract:
+						walk(x.Tuple)
+					case *ssa.Call:
+						if !(x.Call.IsInvoke() && x.Call.Method.Name() == "GetStateRootFromBlock") {
+							bad = "result of " + calleeName(&x.Call) + x.Call.Method.String()
+						}
+					case *ssa.UnOp:
+						if al, ok := x.X.(*ssa.Alloc); ok && x.Op == token.MUL {
+							for _, r := range *al.Referrers() {
+								if st, ok := r.(*ssa.Store); ok && st.Addr == ssa.Value(al) {
+									walk(st.Val)
+								}
+							}
+							return
+						}
+						if _, fv, ok := fieldLoad(x); ok && fv != nil {
+							bad = "request field " + fv.Name()
+							return
+						}
+						bad = x.String()
+					default:
+						bad = v.String()
+					}
+				}
+				walk(call.Call.Args[i])
+				c.ob("R-ROOTARG", key, call.Pos(), bad == "", "the state root argument is "+bad+", not nil / GetStateRootFromBlock(...)")
+			}
+		})
+	}
+	if n == 0 {
+		c.unresolved("StorageAPI calls with a root parameter in " + dir)
+	}
+}
